@@ -500,10 +500,43 @@ func runC12(c *Ctx) {
 				drained = ex
 			}
 		}
+		// the drained conn may reach the caller as the result of a polling helper
+		drainedSet := map[ssa.Value]bool{}
+		if drained != nil {
+			drainedSet[drained] = true
+			if h := drainRecv.Parent(); isPrivateHelper(h) {
+				for k := 0; k < h.Signature.Results().Len(); k++ {
+					isRet := false
+					for _, rv := range returnedValues(h, k) {
+						if rv == drained {
+							isRet = true
+						}
+					}
+					if !isRet {
+						continue
+					}
+					for _, site := range curSites.sites[h] {
+						call, ok := site.(*ssa.Call)
+						if !ok {
+							continue
+						}
+						if h.Signature.Results().Len() == 1 {
+							drainedSet[call] = true
+							continue
+						}
+						for _, rf := range *call.Referrers() {
+							if ex, ok := rf.(*ssa.Extract); ok && ex.Index == k {
+								drainedSet[ex] = true
+							}
+						}
+					}
+				}
+			}
+		}
 		for in := range reachU(blockStart(drainBlk), func(x ssa.Instruction) bool { return x == ssa.Instruction(drainRecv) }) {
 			if isCall(in, "builtin.delete") {
 				args := in.(ssa.CallInstruction).Common().Args
-				if isFieldLoad(args[0], r.LT, r.conns) && drained != nil && derivesFrom(args[1], func(v ssa.Value) bool { return v == drained }, true) {
+				if isFieldLoad(args[0], r.LT, r.conns) && drained != nil && derivesFrom(args[1], func(v ssa.Value) bool { return drainedSet[v] }, true) {
 					hasDel = true
 				}
 			}
@@ -807,7 +840,7 @@ func runC11(c *Ctx) {
 	})
 
 	// R2 the datagram goes to the conn returned for its own address
-	o = c.Obl("R2", fname(r.dispatch), "the datagram is written into the buffer of the connection returned for its own address; address and payload come from the same read (same batch index)", 3)
+	o = c.Obl("R2", fname(r.dispatch), "the datagram is written into the buffer of the connection returned for its own address; address and payload come from the same read (same batch index)", 2)
 	D := r.dispatch
 	var gcCall *ssa.Call
 	instrsOfU(D, func(in ssa.Instruction) {
@@ -841,8 +874,12 @@ func runC11(c *Ctx) {
 		if gcCall != nil && !hasFact(in, func(ft fact) bool {
 			return boolFact(ft, func(v ssa.Value) bool {
 				ex, ok := v.(*ssa.Extract)
-				return ok && sameOrigin(ex.Tuple, ssa.Value(gcCall)) && ex.Index == 1
-			}, true)
+				return ok && sameOrigin(ex.Tuple, ssa.Value(gcCall)) && ex.Index == 1 && isBoolType(ex.Type())
+			}, true) || nilFact(ft, func(v ssa.Value) bool {
+				// no ok result: the conn itself says whether there is one
+				ex, ok := v.(*ssa.Extract)
+				return ok && sameOrigin(ex.Tuple, ssa.Value(gcCall)) && ex.Index == 0
+			}, false)
 		}) {
 			o.Fail(in.Pos(), "the datagram is written although %s did not report a usable conn", fname(G))
 		}
